@@ -1,2 +1,11 @@
 #!/bin/sh
-exit 0
+# Builds govc offline (go1.26.8 + golang.org/x/tools v0.50.0 from the module cache) and warms the
+# build cache so that go/packages export data for /repo's dependencies is available (cold: ~6 min).
+set -e
+export PATH=/opt/veriftools/go1.26.8/bin:$PATH GOFLAGS=-mod=mod GOPROXY=off GOSUMDB=off GOTOOLCHAIN=local
+cd /verif/govc
+mkdir -p /verif/bin /verif/evidence
+go build -o /verif/bin/govc .
+/verif/bin/govc funcs __warm__ >/dev/null
+(cd /repo/modules/light-clients/08-wasm && go list -export -tags verif ./... >/dev/null 2>&1 || true)
+echo "govc built"
